@@ -450,6 +450,18 @@ class IRGenerator:
                             item.lineno, item.path)
                     env[item.target] = imported_env
 
+    @staticmethod
+    def _raise_symbol_already_defined(item, existing):
+        # Built-in types and route groups have no AST node to point at.
+        ast_node = getattr(existing, '_ast_node', None)
+        if ast_node is not None:
+            where = ' (%s:%d)' % (ast_node.path, ast_node.lineno)
+        else:
+            where = ''
+        raise InvalidSpec(
+            'Symbol %s already defined%s.' % (quote(item.name), where),
+            item.lineno, item.path)
+
     def _create_alias(self, env, item):
         # NOTE: I don't like supporting forward references for aliases
         # because it makes specs harder to read. But we have to so that if a
@@ -457,10 +469,7 @@ class IRGenerator:
         # in the command line which affects alias ordering is irrelevant.
         if item.name in env:
             existing_dt = env[item.name]
-            raise InvalidSpec(
-                'Symbol %s already defined (%s:%d).' %
-                (quote(item.name), existing_dt._ast_node.path,
-                existing_dt._ast_node.lineno), item.lineno, item.path)
+            self._raise_symbol_already_defined(item, existing_dt)
 
         namespace = self.api.ensure_namespace(env.namespace_name)
         alias = Alias(item.name, namespace, item)
@@ -471,10 +480,7 @@ class IRGenerator:
     def _create_annotation(self, env, item):
         if item.name in env:
             existing_dt = env[item.name]
-            raise InvalidSpec(
-                'Symbol %s already defined (%s:%d).' %
-                (quote(item.name), existing_dt._ast_node.path,
-                existing_dt._ast_node.lineno), item.lineno, item.path)
+            self._raise_symbol_already_defined(item, existing_dt)
 
         namespace = self.api.ensure_namespace(env.namespace_name)
 
@@ -504,10 +510,7 @@ class IRGenerator:
     def _create_annotation_type(self, env, item):
         if item.name in env:
             existing_dt = env[item.name]
-            raise InvalidSpec(
-                'Symbol %s already defined (%s:%d).' %
-                (quote(item.name), existing_dt._ast_node.path,
-                existing_dt._ast_node.lineno), item.lineno, item.path)
+            self._raise_symbol_already_defined(item, existing_dt)
 
         namespace = self.api.ensure_namespace(env.namespace_name)
 
@@ -551,10 +554,7 @@ class IRGenerator:
         """Create a forward reference for a union or struct."""
         if item.name in env:
             existing_dt = env[item.name]
-            raise InvalidSpec(
-                'Symbol %s already defined (%s:%d).' %
-                (quote(item.name), existing_dt._ast_node.path,
-                 existing_dt._ast_node.lineno), item.lineno, item.path)
+            self._raise_symbol_already_defined(item, existing_dt)
         namespace = self.api.ensure_namespace(env.namespace_name)
         if isinstance(item, AstStructDef):
             try:
@@ -1270,11 +1270,7 @@ class IRGenerator:
                         item.lineno, item.path)
             else:
                 existing_dt = env[item.name]
-                raise InvalidSpec(
-                    'Symbol %s already defined (%s:%d).' % (
-                        quote(item.name), existing_dt._ast_node.path,
-                        existing_dt._ast_node.lineno),
-                    item.lineno, item.path)
+                self._raise_symbol_already_defined(item, existing_dt)
         else:
             env[item.name] = ApiRoutesByVersion()
 
